@@ -125,6 +125,25 @@ func (h *NtfnsHandler) Start() error {
 		}
 	}
 
+	if indexHeight <= syncHeight {
+		// nothing to fetch by height, but the node may have reorganised, while the wallet
+		// was down, to a branch that is not longer than the one the wallet followed: let
+		// the reorg path compare the node's tip with ours.
+		tip, err := h.walletMgr.chainFetcher.FetchBlockByHeight(indexHeight)
+		if err != nil {
+			logging.CPrint(logging.ERROR, "NtfnsHandler.Start(): FetchBlockByHeight error",
+				logging.LogFormat{"height": indexHeight, "err": err})
+			return err
+		}
+		if tip != nil && (indexHeight < syncHeight || tip.BlockHash() != h.bestBlock.Hash) {
+			if err = h.processConnectedBlock(tip); err != nil {
+				logging.CPrint(logging.ERROR, "NtfnsHandler.Start(): processConnectedBlock error",
+					logging.LogFormat{"height": indexHeight, "err": err})
+				return err
+			}
+		}
+	}
+
 	for ; curHeight <= indexHeight; curHeight++ {
 		blk, err := h.walletMgr.chainFetcher.FetchBlockByHeight(curHeight)
 		if err != nil {
